@@ -170,6 +170,148 @@ def build : List Commit → State
   | [] => []
   | c :: older => record (build older) c
 
+/-! ### the bookkeeping of `record_iter_changes`, literally -/
+
+/-- the basis entry of `f`: `basis_inv.get_entry(f)` (`none`: no parents, ghost
+basis, or `f` not in the basis) -/
+def basisEntry (st : State) (ps : List Rev) (f : FileId) : Option Entry :=
+  match ps with
+  | [] => none
+  | b :: _ => entryIn st f b
+
+/-- the items of `make_inventory_delta(revtree.root_inventory, basis_inv)` for
+`f` over `revtrees[1:]`, in parent order: the entry of `f` in a later parent
+when it exists there (`change[1] is None` → skipped) and is not identical to
+the basis entry (identical entries — same attributes *and* same last-changed
+revision — produce no delta item) -/
+def laterDiffs (st : State) (ps : List Rev) (f : FileId) : List Entry :=
+  match ps with
+  | [] => []
+  | b :: others =>
+    others.filterMap fun q =>
+      match entryIn st f q with
+      | some e => if some e = entryIn st f b then none else some e
+      | none => none
+
+/-- `parent_entries[f]` in insertion order (`merged_ids[f]` is its `rev`s):
+empty when no later parent differs (`f not in merged_ids`), else the basis
+entry (when `change[0] is not None`) followed by the differing entries -/
+def mergedEntries (st : State) (ps : List Rev) (f : FileId) : List Entry :=
+  match laterDiffs st ps f with
+  | [] => []
+  | d :: ds => (basisEntry st ps f).toList ++ d :: ds
+
+/-- `dict.get(h)` on a dictionary filled in list order: the **last** entry
+stored under revision `h` -/
+def lastWithRev : List Entry → Rev → Option Entry
+  | [], _ => none
+  | e :: es, h =>
+    match lastWithRev es h with
+    | some x => some x
+    | none => if e.rev == h then some e else none
+
+/-- the body of `for change, head_candidates in changes.values()` for an id
+versioned in the target: `_heads` of the candidate *set*, put back in candidate
+order, then the carry-over test against `parent_entries[f].get(heads[0])` -/
+def processChange (st : State) (c : Commit) (f : FileId) (a : Attr) (pes : List Entry)
+    (cands : List Rev) : Entry × Option (List Rev) :=
+  let hs := heads (textsOf st) f (dedup cands)
+  match hs with
+  | [h] =>
+    match lastWithRev pes h with
+    | some pe => if carryTest pe.attr a then (pe, none) else (⟨a, c.id⟩, some hs)
+    | none => (⟨a, c.id⟩, some hs)
+  | _ => (⟨a, c.id⟩, some hs)
+
+/-- the synthetic change of `unchanged_merged`: parent, name, kind and
+executable bit are the *basis entry's*, the content (sha1 / symlink target) is
+read from the tree.  `none` when the tree's kind is not the basis kind (then
+`iter_changes` should have reported the id; the code's behaviour there is not
+modelled). -/
+def synthAttr (be a : Attr) : Option Attr :=
+  match be.content, a.content with
+  | .file bx _, .file _ s => some ⟨be.parent, be.name, .file bx s⟩
+  | .link _, .link t => some ⟨be.parent, be.name, .link t⟩
+  | .dir, .dir => some ⟨be.parent, be.name, .dir⟩
+  | _, _ => none
+
+/-- outcome of `record_iter_changes` for one file id of the committed tree -/
+inductive Outcome where
+  /-- the new inventory entry and, when a text is stored, its parents -/
+  | entry (e : Entry) (texts : Option (List Rev))
+  /-- no entry in the new inventory (the `NoSuchId` branch of `unchanged_merged`,
+  or not in `changes` and not in the basis) -/
+  | absent
+  /-- outside the model (`synthAttr = none`) -/
+  | undefined
+  deriving DecidableEq, Repr
+
+def Outcome.invItem (o : Outcome) (f : FileId) : Option (FileId × Entry) :=
+  match o with
+  | .entry e _ => some (f, e)
+  | _ => none
+
+def Outcome.textItem (o : Outcome) (f : FileId) : Option (FileId × List Rev) :=
+  match o with
+  | .entry _ (some ps) => some (f, ps)
+  | _ => none
+
+/-- what `record_iter_changes` does for a file id `f` that the committed tree
+holds with attributes `a`; `reported` = `iter_changes` yields a change for `f`.
+
+* reported: `changes[f] = (change, merged_ids.get(f, [basis revision] or []))`;
+* not reported but in `merged_ids` (`unchanged_merged`): the synthetic change
+  built from the basis entry, or nothing when `f` is not in the basis;
+* neither: `f` is not in `changes`, the delta leaves the basis entry alone. -/
+def codeRecordOne (st : State) (c : Commit) (f : FileId) (a : Attr) (reported : Bool) : Outcome :=
+  let be := basisEntry st c.parents f
+  let me := mergedEntries st c.parents f
+  let res (r : Entry × Option (List Rev)) : Outcome := .entry r.1 r.2
+  if reported then
+    match me with
+    | [] => res (processChange st c f a [] (be.toList.map (·.rev)))
+    | _ :: _ => res (processChange st c f a me (me.map (·.rev)))
+  else
+    match me, be with
+    | [], some e => .entry e none
+    | [], none => .absent
+    | _ :: _, none => .absent
+    | _ :: _, some e =>
+      match synthAttr e.attr a with
+      | some a' => res (processChange st c f a' me (me.map (·.rev)))
+      | none => .undefined
+
+/-- `iter_changes` reports `f` exactly when its attributes differ from the
+basis entry's (or it is not in the basis) -/
+def differs (st : State) (c : Commit) (f : FileId) (a : Attr) : Bool :=
+  (basisEntry st c.parents f).map (·.attr) != some a
+
+/-- the revision recorded through the literal bookkeeping, given the set `rep`
+of file ids that `iter_changes` reported; `none` when an outcome is `undefined` -/
+def mkRecB (st : State) (c : Commit) (rep : List FileId) : Option Rec :=
+  let outs := c.tree.map fun t => (t.1, codeRecordOne st c t.1 t.2 (rep.contains t.1))
+  if outs.any (fun o => o.2 == .undefined) then none else
+  some { id := c.id, parents := c.parents,
+         inv := outs.filterMap fun o => o.2.invItem o.1,
+         texts := outs.filterMap fun o => o.2.textItem o.1 }
+
+/-- the repository built through the literal bookkeeping; `reps` = per commit
+(newest first) the reported ids -/
+def buildB : List (Commit × List FileId) → Option State
+  | [] => some []
+  | (c, rep) :: older =>
+    match buildB older with
+    | some st => (mkRecB st c rep).map (· :: st)
+    | none => none
+
+/-- per commit (newest first) the reported ids are exactly those whose
+attributes differ from the basis entry's -/
+def repsOk : List (Commit × List FileId) → Bool
+  | [] => true
+  | (c, rep) :: older =>
+    repsOk older &&
+      c.tree.all fun t => rep.contains t.1 == differs (build (older.map (·.1))) c t.1 t.2
+
 /-- strict ancestors of a revision in the revision graph -/
 def ranc : State → Rev → List Rev
   | [], _ => []
